@@ -2,18 +2,9 @@
   C15 — Stock splits are value-neutral.
 -/
 import AcbModel.Props.C16
+import AcbModel.Lemmas.Scale
 namespace Acb
 open Spec
-
-/-- restating a row for an `f`-fold split: share quantities × f, per-share amounts ÷ f -/
-def restateAct (f : Rat) : Action → Action
-  | .buy sh px comm rate crate => .buy (sh * f) (px / f) comm rate crate
-  | .sell sh px comm rate crate spec => .sell (sh * f) (px / f) comm rate crate spec
-  | .roc ps rate => .roc (ps / f) rate
-  | .sfla sh ps => .sfla (sh * f) (ps / f)
-  | .split post pre io => .split post pre io
-
-def restateTx (f : Rat) (t : Tx) : Tx := { t with act := restateAct f t.act }
 
 def scaleBook (f : Rat) (b : Book) : Book := { b with shares := b.shares * f }
 
